@@ -89,18 +89,24 @@ class PCT:
 
 
 class Listed:
-    """follow `deviations` (step → index into the sorted candidate list); elsewhere keep running the last agent if it is still
-    enabled (non-pre-emptive), else take the smallest key.  Records (n_candidates, default_index) per step for the DFS driver."""
+    """follow `deviations` (step → index into the sorted candidate list, the default excluded); elsewhere take the default of `mode`:
+    'sticky' = keep running the last agent while it is enabled (non-pre-emptive), else the smallest key; 'key' = smallest key;
+    'fifo' = the agent that has been parked longest (maximal interleaving).  Records (n_candidates, default_index) per step."""
     name = 'listed'
 
-    def __init__(self, deviations=None, sticky=True):
+    def __init__(self, deviations=None, mode='sticky'):
         self.dev = dict(deviations or {})
-        self.sticky = sticky
+        self.mode = {True: 'sticky', False: 'key'}.get(mode, mode)
         self.shape = []
 
     def choose(self, cands, step, last, ctl):
         cs = [c for c in cands if c != WAIT] or cands
-        d = cs.index(last) if (self.sticky and last in cs) else 0
+        if self.mode == 'sticky' and last in cs:
+            d = cs.index(last)
+        elif self.mode == 'fifo':
+            d = min(range(len(cs)), key=lambda i: ctl.parked[cs[i]].seq if cs[i] in ctl.parked else 1 << 60)
+        else:
+            d = 0
         self.shape.append((len(cs), d))
         if step in self.dev:
             alts = [i for i in range(len(cs)) if i != d]
@@ -157,6 +163,7 @@ class Controller:
         self.taken = 0
         self.finished_chunks = 0
         self.multi_choice_steps = 0
+        self.wait_streak = 0
         self.faults_injected = 0
 
     # ---- identities
@@ -275,7 +282,7 @@ class Controller:
 
     def wait_useful(self):
         """snapshot: chunks are queued and a worker could pick one up at its next poll"""
-        return self.queue_len > 0 and (self.taken - self.finished_chunks) < self.n and self.tasks_live > 0
+        return self.queue_len > 0 and self.tasks_live - (self.taken - self.finished_chunks) > 0 and self.wait_streak < 2
 
     def _run(self):
         stall_since = None
@@ -315,10 +322,12 @@ class Controller:
                 self.decisions.append((a, len(real)))
                 self.step += 1
                 if a == WAIT:
+                    self.wait_streak += 1
                     self.log.append(('wait',))
                     self.cv.wait(0.03)
                     self.last_event = time.monotonic() - self.settle
                     continue
+                self.wait_streak = 0
                 p = self.parked.pop(a)
                 self.last_agent = a
                 action = 'go'
